@@ -9,6 +9,7 @@
 package c11
 
 import (
+	"bytes"
 	"fmt"
 	"sort"
 	"strings"
@@ -38,6 +39,8 @@ const (
 	kfPanic      = "C11-nil-validator-panic"   // a commit slot naming a non-member makes GetByzantineValidators panic
 	kfIndex      = "C11-validator-index-malleable" // duplicate-vote evidence verifies with any Vote.ValidatorIndex: new hash, same offence
 	kfCrash      = "C11-update-lost-in-crash"      // crash between SaveBlock and Pool.Update: replay uses EmptyEvidencePool
+	kfRepeated   = "C11-repeated-validator-named-twice" // a validator listed twice in the conflicting set is named (punished) twice
+	kfReanchor   = "C11-same-block-other-common-height" // one conflicting block is new evidence for every admissible common height
 	kfRace       = "C11-add-evidence-not-atomic"   // AddEvidence interleaved with AddEvidence / CheckEvidence / Update
 )
 
@@ -147,6 +150,8 @@ func knownMismatch(ev types.Evidence, r refOut, accepted bool, err error) (strin
 		return kfUnverified, true
 	case accepted && r.v == vInvalid && r.wrongIndex:
 		return kfIndex, true
+	case accepted && r.v == vInvalid && r.repeatedCulprit:
+		return kfRepeated, true
 	}
 	return "", false
 }
@@ -261,6 +266,8 @@ type model struct {
 	// stay in the broadcast list (EvidenceFront/Next) until committed or expired — across restarts too
 	gossip        map[string]bool
 	committedList []*mItem
+	// conflicting block hash -> hash of the committed light-client evidence that carried it
+	committedBlocks map[string]string
 	blind         map[string]bool
 	crashes       int // crashes between SaveBlock and Pool.Update (block replayed by the handshake)
 	bigRestarts   int // restarts with more pending evidence than fits one block (Evidence.MaxBytes)
@@ -308,6 +315,9 @@ func (m *model) excluded(x *mItem, r refOut) bool {
 	case r.v == vInvalid && r.unprovenCulprit && lib.IsKnown(kfUnverified):
 		lib.ExcludedByKnown(kfUnverified)
 		return true
+	case r.v == vInvalid && r.repeatedCulprit && lib.IsKnown(kfRepeated):
+		lib.ExcludedByKnown(kfRepeated)
+		return true
 	case r.v == vInvalid && r.wrongIndex && lib.IsKnown(kfIndex):
 		lib.ExcludedByKnown(kfIndex)
 		return true
@@ -325,6 +335,21 @@ func (m *model) drawItem(t *rapid.T, validOnly bool) (*mItem, refOut, bool) {
 			// re-offer something that was committed (the most recent ones are the ones still fresh)
 			n := len(m.committedList)
 			x = m.committedList[n-1-rapid.IntRange(0, min(n, 3)-1).Draw(t, "recent")]
+		} else if !validOnly && reuse == 2 && len(m.committedList) > 0 {
+			// a conflicting block that was already committed as evidence, observed by another light client from
+			// another common height
+			n := len(m.committedList)
+			y := m.committedList[n-1-rapid.IntRange(0, min(n, 3)-1).Draw(t, "recent-block")]
+			l, ok := y.ev.(*types.LightClientAttackEvidence)
+			if !ok || l.ConflictingBlock.Height <= 1 {
+				continue
+			}
+			h2 := m.w.pickHeight(t, "reanchor.h", 1, min64(l.ConflictingBlock.Height-1, m.w.tip()))
+			ne, err := m.w.c.AttackEvidence(l.ConflictingBlock, h2, lib.Lunatic)
+			if err != nil {
+				continue
+			}
+			x = m.intern(item{ev: ne, kind: y.it.kind, pert: "committed-block-other-common-height"}, ne)
 		} else if len(m.universe) > 0 && reuse < 5 {
 			x = rapid.SampledFrom(m.universe).Draw(t, "known")
 		} else {
@@ -337,12 +362,43 @@ func (m *model) drawItem(t *rapid.T, validOnly bool) (*mItem, refOut, bool) {
 			x = m.intern(it, ev)
 		}
 		r := m.w.ref(x.ev)
+		if r.v == vValid && m.sameBlockCommitted(x) {
+			r = refOut{v: vInvalid, why: "its conflicting block was already committed as evidence (other common height)", age: r.age}
+		}
 		if r.v == vAmbig || m.excluded(x, r) || (validOnly && r.v != vValid) {
 			continue
 		}
 		return x, r, true
 	}
 	return nil, refOut{}, false
+}
+
+func conflictingBlockHash(ev types.Evidence) string {
+	if l, ok := ev.(*types.LightClientAttackEvidence); ok && l.ConflictingBlock != nil && l.ConflictingBlock.Header != nil {
+		return string(l.ConflictingBlock.Header.Hash())
+	}
+	return ""
+}
+
+// sameBlockCommitted: the conflicting block of x has already been committed as evidence under another evidence hash
+// (the evidence hash covers the common height, so the same signatures re-anchored at another admissible common height are
+// "new" evidence). "The same evidence never appears in two blocks": the offence is the signed block. While the
+// finding is listed as known the rule is switched off (and the encounter counted).
+func (m *model) sameBlockCommitted(x *mItem) bool {
+	h := conflictingBlockHash(x.ev)
+	if h == "" {
+		return false
+	}
+	prev, ok := m.committedBlocks[h]
+	if !ok || prev == x.hash {
+		return false
+	}
+	if lib.IsKnown(kfReanchor) {
+		lib.ObservedKnown(kfReanchor)
+		lib.ExcludedByKnown(kfReanchor)
+		return false
+	}
+	return true
 }
 
 func (m *model) expired(h int64) bool { e, _ := m.w.ageClass(h); return e }
@@ -367,6 +423,9 @@ func (m *model) listVerdict(list []*mItem, lenientExpired bool) (ok bool, why st
 			return false, fmt.Sprintf("#%d repeated in the list", i), false
 		}
 		seen[x.hash] = true
+		if m.sameBlockCommitted(x) {
+			return false, fmt.Sprintf("#%d its conflicting block was already committed as evidence (other common height)", i), false
+		}
 		if !x.isLCA && m.pending[x.hash] != nil {
 			// the very same bytes were verified when they were admitted; only freshness can have changed
 			if m.expired(x.h) && !lenientExpired {
@@ -432,19 +491,44 @@ func (m *model) poolSet() map[string]bool {
 // check runs CheckEvidence(list): accepted <=> listVerdict. Side effects allowed by the property: valid, fresh, new
 // items of the list may have entered the pool (all of them if the list is accepted); nothing may leave it.
 func (m *model) check(t *rapid.T, list []*mItem, ctx string) bool {
+	return m.checkVia(t, list, ctx, "", func() error { return m.pool.CheckEvidence(evList(list)) })
+}
+
+// validateBlock is "accepted inside a block" taken literally: the node's BlockExecutor.ValidateBlock (what consensus
+// calls when it prevotes, precommits and finalizes) on a real block for the next height. body, if not nil, replaces
+// the evidence section while the header (and with it the block hash) stays what it was built with: another body
+// under the same header. Such a block must be rejected whenever the body is not the one the header commits to.
+func (m *model) validateBlock(t *rapid.T, block *types.Block, headerList, body []*mItem, ctx string) bool {
+	b := *block
+	list, mismatch := headerList, ""
+	if body != nil {
+		b.Evidence = types.EvidenceData{Evidence: evList(body)}
+		list = body
+		if !bytes.Equal(evList(body).Hash(), block.EvidenceHash) {
+			mismatch = "the evidence section is not the one the header commits to"
+		}
+	}
+	return m.checkVia(t, list, ctx, mismatch, func() error { return m.w.c.Exec.ValidateBlock(m.w.c.State, &b) })
+}
+
+// checkVia: mustReject != "" — the call has to fail for a reason outside the list (and may then leave the pool alone).
+func (m *model) checkVia(t *rapid.T, list []*mItem, ctx, mustReject string, call func() error) bool {
 	before := m.poolSet()
-	e0, p0 := guarded(func() error { return m.pool.CheckEvidence(evList(list)) })
+	e0, p0 := guarded(call)
 	err := poolErr(t, evList(list), e0, p0)
 	ok, why, undecided := m.listVerdict(list, false)
+	if mustReject != "" {
+		ok, why, undecided = false, mustReject, false
+	}
 	m.log("%s check %s -> err=%v (model: ok=%v undecided=%v %s)", ctx, names(list), err != nil, ok, undecided, why)
 	if undecided {
 		lib.Class("TestLifecycle", "check:undecided-by-reference")
 	} else if ok != (err == nil) {
 		// the only tolerated deviation: listed known finding kfExpired
-		if ok2, _, _ := m.listVerdict(list, true); ok2 == (err == nil) && tolerate(kfExpired) {
+		if ok2, _, _ := m.listVerdict(list, true); mustReject == "" && ok2 == (err == nil) && tolerate(kfExpired) {
 			ok = ok2
 		} else {
-			m.fatalf(t, "%s: CheckEvidence(%s) err=%v but the property says ok=%v (%s)\n tip=%d", ctx, names(list), short(err), ok, why, m.w.tip())
+			m.fatalf(t, "%s: validating evidence %s returned err=%v but the property says ok=%v (%s)\n tip=%d", ctx, names(list), short(err), ok, why, m.w.tip())
 		}
 	}
 	after := m.poolSet()
@@ -551,7 +635,7 @@ func TestLifecycle(t *testing.T) {
 		w := newWorld(t)
 		defer w.c.Close()
 		m := &model{w: w, db: dbm.NewMemDB(), byContent: map[string]*mItem{}, pending: map[string]*mItem{}, committed: map[string]bool{},
-			blind: map[string]bool{}, gossip: map[string]bool{}}
+			blind: map[string]bool{}, gossip: map[string]bool{}, committedBlocks: map[string]string{}}
 		m.pool = w.newPool(t, m.db)
 		w.c.SetEvidencePool(m.pool)
 		kinds := map[string]bool{}
@@ -628,11 +712,33 @@ func TestLifecycle(t *testing.T) {
 			if len(list) > 0 && (mode == "validated" || mode == "crash") {
 				// consensus validates the block's evidence (BlockExecutor.ValidateBlock -> CheckEvidence) when it
 				// prevotes and once more when it finalizes the commit; ApplyBlock itself only calls Update.
-				for _, stage := range []string{"prevote", "finalize"} {
-					if stage == "finalize" && !rapid.Bool().Draw(t, "revalidate") {
+				plan.Evidence = evList(list)
+				block, _ := w.c.BuildNext(plan) // the very block Advance is going to build, save and apply
+				for _, stage := range []string{"prevote", "second-body", "finalize"} {
+					switch stage {
+					case "finalize":
+						if !rapid.Bool().Draw(t, "revalidate") {
+							continue
+						}
+					case "second-body":
+						// a later round (or a byzantine proposer) presents the same header with another evidence section:
+						// an item twice, an item less, or evidence that is already committed
+						if rapid.IntRange(0, 2).Draw(t, "otherbody") != 0 {
+							continue
+						}
+						body := append([]*mItem(nil), list...)
+						switch k := rapid.SampledFrom([]string{"repeat", "drop", "committed"}).Draw(t, "bodykind"); {
+						case k == "repeat":
+							body = append(body, rapid.SampledFrom(list).Draw(t, "repeated"))
+						case k == "committed" && len(m.committedList) > 0:
+							body = append(body, rapid.SampledFrom(m.committedList).Draw(t, "stale"))
+						default:
+							body = body[:len(body)-1]
+						}
+						m.validateBlock(t, block, list, body, stage)
 						continue
 					}
-					if !m.check(t, list, stage) {
+					if !m.validateBlock(t, block, list, nil, stage) {
 						m.fatalf(t, "a block with valid, fresh, new evidence %s is rejected", names(list))
 					}
 				}
@@ -681,6 +787,9 @@ func TestLifecycle(t *testing.T) {
 			for _, x := range list {
 				delete(m.pending, x.hash)
 				delete(m.gossip, x.hash)
+				if h := conflictingBlockHash(x.ev); h != "" && m.committedBlocks[h] == "" {
+					m.committedBlocks[h] = x.hash
+				}
 				if !m.committed[x.hash] {
 					m.committedList = append(m.committedList, x)
 				}
@@ -934,6 +1043,13 @@ func short(err error) string {
 		s = s[:300] + "..."
 	}
 	return s
+}
+
+func min64(a, b int64) int64 {
+	if a < b {
+		return a
+	}
+	return b
 }
 
 func min(a, b int) int {
